@@ -23,6 +23,11 @@ func isString(v value) bool {
 	return ok
 }
 
+func isBlock(v value) bool {
+	_, ok := v.(Block)
+	return ok
+}
+
 func isBool(v value) bool {
 	_, ok := v.(bool)
 	return ok
@@ -55,6 +60,8 @@ func vtype(v value) string {
 		return "string"
 	case bool:
 		return "bool"
+	case Block:
+		return "block"
 	default:
 		if v == nil {
 			return "nil"
